@@ -64,6 +64,8 @@ type pgenWeights struct {
 	defaults int // percent of decorated struct methods that get a default FUNC
 	smeth    int // percent of decorated struct methods that use a method of the source as a field source
 	enums    int // percent of named basic source types that are enums (have constants)
+	maps     int // percent of positions (depth < 2) forced to be a map with a named key type
+	wrapUsing int // percent of decorated converters with wrapErrorsUsing (default 30)
 }
 
 func (g *pgen) edit(s string) { g.edits = append(g.edits, s) }
@@ -118,6 +120,10 @@ func (g *pgen) srcType(depth int) *Ty {
 	max := 9
 	if depth >= 3 {
 		max = 2
+	}
+	if depth < 2 && g.r.Intn(100) < g.weights.maps {
+		k := tNamed(g.newNamed(g.pkg(), tBasic([]int{bkInt, bkString}[g.r.Intn(2)]), "NK"))
+		return tMap(k, g.srcType(depth+1))
 	}
 	switch g.r.Intn(max) {
 	case 0:
